@@ -9,3 +9,20 @@ mod utils;
 pub mod instructions;
 
 pub type Result<T> = core::result::Result<T, errors::UnifiedError>;
+
+/// Verification hook (feature `verif`): re-exports of the otherwise private Pinocchio
+/// modules so an external harness can call the ported functions and memory-mapped views.
+#[cfg(feature = "verif")]
+pub mod verif_export {
+    pub use super::constants::address;
+    pub use super::errors::*;
+    pub use super::events::Event;
+    pub use super::ported::{
+        manager_liquidity_manager, manager_tick_array_manager, position as ported_position,
+        util_remaining_accounts_utils, util_shared, util_token,
+    };
+    pub use super::state::token;
+    pub use super::state::whirlpool as wp_state;
+    pub use super::state::{TokenProgramAccount, WhirlpoolProgramAccount};
+    pub use super::utils::{account_info_iter, account_load, verify};
+}
